@@ -459,7 +459,10 @@ impl Property for C15 {
                     if tiny_rows && cs.len() == n {
                         let rr = |j: usize| -> f64 {
                             let r: f64 = (0..n).map(|i| bmat[j][i] * cs[i]).sum::<f64>() - s.y[j];
-                            let m: f64 = (0..n).map(|i| (bmat[j][i] * cs[i]).abs()).sum::<f64>() + s.y[j].abs();
+                            // relative to the row's own size times the size of the coefficients (a datum of
+                            // 1e-32 next to coefficients of order 1 is reproduced up to rounding noise only)
+                            let row_max = (0..n).map(|i| bmat[j][i].abs()).fold(0.0f64, f64::max);
+                            let m: f64 = (0..n).map(|i| (bmat[j][i] * cs[i]).abs()).sum::<f64>() + s.y[j].abs() + row_max * cscale0;
                             if m == 0.0 { 0.0 } else { r.abs() / m }
                         };
                         v.label("domain:rescaled-huge:derivative-rows");
